@@ -191,10 +191,13 @@ def work_seq(chunk):
         d = tempfile.mkdtemp(prefix="ucgverif-c13-")
         try:
             files = {}
-            for n in order:
+            for i, n in enumerate(order):
                 fn = "%s_test.ucg" % n
                 files[fn] = REPRESENTATIVE[n]
-                with open(os.path.join(d, fn), "w") as f:
+                # nested: the files are spread over the directory, a sub-directory and one below that
+                sub = ["", "sub", os.path.join("sub", "deep")][(i + (1 if mode.endswith("-1") else 0)) % 3] if mode.startswith("recursive-nested") else ""
+                os.makedirs(os.path.join(d, sub), exist_ok=True)
+                with open(os.path.join(d, sub, fn), "w") as f:
                     f.write(file_text(REPRESENTATIVE[n]))
             names = ["%s_test.ucg" % n for n in order]
             rc, out, err = run_trace(d, names, mode)
@@ -271,6 +274,7 @@ def run(ctx):
     reps = list(REPRESENTATIVE)
     seqs = [(o, "args") for ln in range(1, seqlen + 1) for o in itertools.permutations(reps, ln)]
     seqs += [(o, "recursive") for ln in range(2, 4) for o in itertools.combinations(reps, ln)]
+    seqs += [(o, mode) for ln in range(1, 4) for o in itertools.permutations(reps, ln) for mode in ("recursive-nested", "recursive-nested-1")]
     histories = [h for ln in range(1, e2depth + 1) for h in itertools.product(reps, repeat=ln)]
     ctx.bounds = {"file_length": maxlen, "assertion_kinds": len(kinds), "sequence_length": seqlen, "representative_files": len(reps), "e2_depth": e2depth}
     viol = []
